@@ -146,6 +146,10 @@ def _slack_case(rng, stream):
         tag = "continuous"
     cons = [GI.constraint(3, 1, ["lin", [[[ids[0], f64(1.0)]], f64(0.0)]]), GI.constraint(cid, eq, ft, GI.meta(rng, "c"))]
     rng.shuffle(cons)
+    if tag != "continuous" and rng.random() < 0.4:
+        # the variable with the (usually) largest id is already FIXED (substituted_value, as partial_evaluate leaves it): it
+        # still owns its id, the slack must get a new one
+        extra_dv[3] = [f64(float(rng.randint(0, 5)))]
     all_dvs = dvs + [extra_dv]
     if rng.random() < 0.5:
         rng.shuffle(all_dvs)
